@@ -21,6 +21,22 @@ class AnalysisError(Exception):
     """The analyser cannot decide (vanished anchor, unmodelled statement, floor not met)."""
 
 
+class DefiniteViolation(AnalysisError):
+    """Raised where an engine has to stop AND what stopped it is itself a violation (a construct the property needs is
+    definitely absent / definitely wrong, not merely spelled in a way the engine does not know): reported as a finding."""
+
+    def __init__(self, rule, module, func, node, reason, construct=None, props=None):
+        super().__init__(reason)
+        self.rule, self.module, self.func, self.node, self.reason, self.construct = rule, module, func, node, reason, construct
+        self.props = set(props) if props else None   # the properties it is a violation OF; for the others the engine is just stuck
+
+    def report(self, rep):
+        if self.props is None or rep.prop in self.props:
+            rep.fail(self.rule, self.module, self.func, self.node, self.reason, construct=self.construct)
+        elif str(self) not in rep.undecided:
+            rep.undecided.append(str(self))
+
+
 def norm(node) -> str:
     """Normalised construct text: ast.unparse with whitespace collapsed (never a line number)."""
     if node is None:
@@ -130,6 +146,9 @@ class Report:
         A definite violation found elsewhere is still reported (exit 1); with no violation the run is undecided (exit 2)."""
         try:
             return fn(*args, **kw)
+        except DefiniteViolation as e:
+            e.report(self)
+            return None
         except AnalysisError as e:
             self.undecided.append(str(e))
             return None
